@@ -60,7 +60,8 @@ type Engine struct {
 	goSites       map[string][]*ssa.Go
 	forms         []rawForm
 	rebound       map[string]string
-	lemmaSelf     map[string]string // lemma obligation owner -> its own axiom text (excluded from its own proof)
+	lemmaSelf     map[string]string
+	implCache     map[string][]string // lemma obligation owner -> its own axiom text (excluded from its own proof)
 	nonNilGlobals map[string]bool
 	loaded        []*packages.Package
 	declared      map[string]bool
@@ -88,7 +89,7 @@ func (fx *FuncExec) modified(key string) bool {
 		return true
 	}
 	for p := range fx.modKeys {
-		if key == p || strings.HasPrefix(key, p+".") || strings.HasPrefix(key, p+"#") {
+		if key == p || strings.HasPrefix(key, p+".") || strings.HasPrefix(key, p+"#") || (p == "ghost" && strings.HasPrefix(key, "ghost:")) {
 			return true
 		}
 	}
@@ -394,6 +395,35 @@ func (x *Exec) entryState(cut *ssa.BasicBlock) *State {
 				nm = phi.Name()
 			}
 			st.env[phi] = st.named(phi.Type(), "phi:"+nm+"@"+phi.Name())
+			if isVarCellPhi(phi) {
+				st.assume("(not (= " + st.env[phi].T + " 0))")
+			}
+		}
+		// parameters spilled to never-reassigned cells (captured by closures) still hold the parameter
+		for _, b := range fn.Blocks {
+			if !b.Dominates(cut) {
+				continue
+			}
+			for _, ins := range b.Instrs {
+				if a, ok := ins.(*ssa.Alloc); ok && spilledParam(a) {
+					for _, r := range *a.Referrers() {
+						if sto, ok := r.(*ssa.Store); ok && sto.Addr == a {
+							ref := x.get(st, a)
+							pt := a.Type().(*types.Pointer).Elem()
+							func() {
+								defer func() {
+									if r := recover(); r != nil {
+										if _, ok := r.(unsupportedErr); !ok {
+											panic(r)
+										}
+									}
+								}()
+								st.storeAt(Addr{Root: ref.T, Key: rootKey(pt), Ty: pt}, x.get(st, sto.Val))
+							}()
+						}
+					}
+				}
+			}
 		}
 		// branch conditions on the dominator chain whose edge dominates the header still hold
 		x.assumeDominatingGuards(st, cut)
@@ -401,7 +431,7 @@ func (x *Exec) entryState(cut *ssa.BasicBlock) *State {
 		// go/ssa's range-over-slice index starts at -1 and only ever increments below len
 		for _, ins := range cut.Instrs {
 			if phi, ok := ins.(*ssa.Phi); ok && phi.Comment == "rangeindex" {
-				st.assume("(>= " + st.env[phi].T + " (- 1))")
+				st.assume("(and (>= " + st.env[phi].T + " (- 1)) (< " + st.env[phi].T + " 4611686018427387904))")
 			}
 		}
 		// assume invariants
@@ -633,6 +663,14 @@ func (x *Exec) loopSpecCtx(st *State, hdr *ssa.BasicBlock, phiVals map[*ssa.Phi]
 	names := x.paramNames(st, x.fx.contract)
 	sc := x.specCtx(st, st.heap, st.old, names)
 	sc.resolver = func(name string) (Value, bool) {
+		if name == "$rangepos" {
+			for _, ins := range hdr.Instrs {
+				if nx, ok := ins.(*ssa.Next); ok {
+					return x.get(st, nx.Iter), true
+				}
+			}
+			return Value{}, false
+		}
 		// phi of this header
 		for _, ins := range hdr.Instrs {
 			phi, ok := ins.(*ssa.Phi)
@@ -640,10 +678,16 @@ func (x *Exec) loopSpecCtx(st *State, hdr *ssa.BasicBlock, phiVals map[*ssa.Phi]
 				break
 			}
 			if phi.Comment == name {
+				v := st.env[phi]
 				if phiVals != nil {
-					return phiVals[phi], true
+					v = phiVals[phi]
 				}
-				return st.env[phi], true
+				if isVarCellPhi(phi) {
+					// Go 1.22 per-iteration loop variable: the phi ranges over the variable's cells
+					pt := phi.Type().(*types.Pointer).Elem()
+					return st.loadAt(Addr{Root: v.T, Key: rootKey(pt), Ty: pt}), true
+				}
+				return v, true
 			}
 		}
 		return x.lookupLocal(st, name, hdr)
@@ -666,7 +710,7 @@ func (x *Exec) lookupLocal(st *State, name string, at *ssa.BasicBlock) (Value, b
 					best = v
 				}
 			case *ssa.Alloc:
-				if v.Comment == name {
+				if v.Comment == name && !spilledParam(v) {
 					best = v
 				}
 			case *ssa.DebugRef:
@@ -746,4 +790,57 @@ func (x *Exec) assumeGlobalInv(st *State) {
 		sc := x.specCtx(st, st.heap, st.old, map[string]Value{})
 		st.assume(sc.evalHyp(c.E))
 	}
+}
+
+// spilledParam reports whether an Alloc is just the home of a parameter that is never
+// reassigned (exactly one store, of the parameter itself): its value is the parameter.
+func spilledParam(a *ssa.Alloc) bool {
+	refs := a.Referrers()
+	if refs == nil {
+		return false
+	}
+	stores := 0
+	isParam := false
+	for _, r := range *refs {
+		if st, ok := r.(*ssa.Store); ok && st.Addr == a {
+			stores++
+			_, isParam = st.Val.(*ssa.Parameter)
+		}
+	}
+	if stores != 1 || !isParam {
+		return false
+	}
+	// captured by a closure that may write it?
+	for _, r := range *refs {
+		if mc, ok := r.(*ssa.MakeClosure); ok {
+			f := mc.Fn.(*ssa.Function)
+			for i, b := range mc.Bindings {
+				if b == a && i < len(f.FreeVars) {
+					if fr := f.FreeVars[i].Referrers(); fr != nil {
+						for _, u := range *fr {
+							if s2, ok := u.(*ssa.Store); ok && s2.Addr == f.FreeVars[i] {
+								return false
+							}
+						}
+					}
+				}
+			}
+		}
+	}
+	return true
+}
+
+// isVarCellPhi: a pointer-typed phi all of whose inputs are the cells of one source variable
+// (the per-iteration copies of a loop variable captured by a closure).
+func isVarCellPhi(phi *ssa.Phi) bool {
+	if _, ok := phi.Type().(*types.Pointer); !ok || phi.Comment == "" {
+		return false
+	}
+	for _, e := range phi.Edges {
+		a, ok := e.(*ssa.Alloc)
+		if !ok || a.Comment != phi.Comment {
+			return false
+		}
+	}
+	return true
 }
